@@ -16,6 +16,7 @@ import Gpa.Model.Provision
 import Gpa.Model.SetupFs
 import Gpa.Model.KeyKeeper
 import Gpa.Model.Secrets
+import Gpa.Model.Sha256
 
 open Gpa
 
@@ -387,6 +388,18 @@ def stepLine (st : DState) (line : String) : DState × String :=
           let r := SetupFs.run (fun x => x < 1000) fs c
           let out := setupPaths.map fun p => match r.1 p with | some v => toString v | none => "-"
           (st, " ".intercalate out ++ " | " ++ ",".intercalate (r.2.map showEv))
+      | none => (st, "bad-op")
+  | ["hmac", k, m] =>
+      -- compute_signature: the key is itself a hex string; `bad-key` when it is not
+      match Hex.decode k, (if m = "-" then some [] else Hex.decode m) with
+      | some keyText, some msg =>
+          match Hex.decodeChars (keyText.map fun b => Char.ofNat b.toNat) with
+          | some key => (st, Hex.encode (Sha256.hmac key msg))
+          | none => (st, "bad-key")
+      | _, _ => (st, "bad-op")
+  | ["sha256", m] =>
+      match (if m = "-" then some [] else Hex.decode m) with
+      | some msg => (st, Hex.encode (Sha256.sha256 msg))
       | none => (st, "bad-op")
   | ["sec", "new"] => ({ st with sec := Secrets.St.init }, s!"ok variant={if Secrets.codeVariant.withholdHexKey then 1 else 0}{if Secrets.codeVariant.withholdBody then 1 else 0}")
   | "sec" :: toks =>
